@@ -1,7 +1,7 @@
 (* use: f64glue *)
 (* C17 model driver: same case language as harness/drv_C17.cpp.
    Model half  = the extracted code-path model (Access/Slice.v, Access/View.v) under [current_behaviour]
-                 (environment C17_MODEL = today | repaired | full | bits:<5 x 0/1> overrides, for runs against patched copies);
+                 (environment C17_MODEL = today | repaired | full | bits:<6 x 0/1> overrides, for runs against patched copies);
    spec half   = the extracted brute-force evaluators of Access/SliceSpec.v (after " ## ").
    The model and the specification keep separate copies of the array: a write the specification refuses
    does not reach the specification's copy, so a later `aread` shows a violated frame condition. *)
@@ -10,10 +10,10 @@ let beh =
   | "today" -> code_today
   | "repaired" -> repaired_except_pinned
   | "full" -> repaired
-  | s when OStr.length s = 10 && OStr.sub s 0 5 = "bits:" ->
+  | s when OStr.length s = 11 && OStr.sub s 0 5 = "bits:" ->
     let b i = s.[5 + i] = '1' in
     { slice_reads_argument_vectors = b 0; slice_point_snaps = b 1; extent_check_wraps = b 2;
-      view_check_wraps = b 3; pads_with_positions = b 4 }
+      view_check_wraps = b 3; pads_with_positions = b 4; scalar_template_empty_count = b 5 }
   | _ -> current_behaviour
 
 let show_res f r = match r with Ok o -> "OK " ^ f o | Err e -> "ERR " ^ ostr e | UB w -> "UB " ^ ostr w
@@ -146,5 +146,43 @@ let handle toks = match toks with
                  | _ -> "ERR oob")) in
        model ^ " ## " ^ spec
      | _ -> failwith "bad vwrite")
+  | op :: rest when op = "vget" || op = "vset" || op = "aget" || op = "aset" ->
+    (* the templates DataSet::getData(value, offset) / setData(value, offset): value = scalar ("s") or a vector of n elements *)
+    (match sections rest with
+     | [kind] :: off :: more ->
+       let off = zs off in
+       let vshape, buf = if kind = "s" then [], z_of_int 1 else [z_of_string kind], z_of_string kind in
+       let gen = (match more with [[v0]] -> gen_from (z_of_string v0) | _ -> gen_from Z0) in
+       let on_view = op.[0] = 'v' and is_get = (op = "vget" || op = "aget") in
+       if on_view then begin
+         let model = (match !m_view with
+             | None -> "ERR std::logic_error"
+             | Some v ->
+               if is_get then show_res show_vals (view_get_value beh v !m_arr vshape buf off)
+               else (let r = view_set_value beh v !m_arr vshape buf off gen in
+                     (match r with Ok a -> m_arr := a | _ -> ());
+                     show_res (fun _ -> "done") r)) in
+         let spec = (match !s_view with
+             | None -> "ANY"
+             | Some v ->
+               let r = OLst.length v.v_count in
+               if not ((vshape = [] || r = 1) && (off = [] || OLst.length off = r)) then "ERR"
+               else if is_get then (match spec_get_value v !s_arr vshape off with Ok vals -> "OK " ^ show_vals vals | _ -> "ERR oob")
+               else (match spec_set_value v !s_arr vshape off gen with Ok a -> s_arr := a; "OK done" | _ -> "ERR oob")) in
+         model ^ " ## " ^ spec
+       end else begin
+         (* the control: the same call on the DataArray; the specification's answer is the repaired model's on its own copy *)
+         if is_get then
+           show_res show_vals (arr_get_value beh !m_arr vshape buf off) ^ " ## " ^
+           (match arr_get_value repaired_except_pinned !s_arr vshape buf off with Ok vals -> "OK " ^ show_vals vals | _ -> "ERR")
+         else begin
+           let r = arr_set_value beh !m_arr vshape buf off gen in
+           (match r with Ok a -> m_arr := a | _ -> ());
+           let sp = arr_set_value repaired_except_pinned !s_arr vshape buf off gen in
+           (match sp with Ok a -> s_arr := a | _ -> ());
+           show_res (fun _ -> "done") r ^ " ## " ^ (match sp with Ok _ -> "OK done" | _ -> "ERR")
+         end
+       end
+     | _ -> failwith "bad value op")
   | _ -> failwith "bad command"
 let () = run_file OSys.argv.(1) handle
